@@ -276,6 +276,17 @@ class CaseTimeout(BaseException):
     """Wall-clock watchdog of one case fired (inconclusive, never a verdict)."""
 
 
+class CaseCpuExhausted(BaseException):
+    """One case consumed CASE_CPU_BUDGET_S seconds of *CPU time* of this process (ITIMER_VIRTUAL: independent of
+    machine load, unlike the wall clock). `where` is the innermost frame that belongs to the code under observation
+    or to the harness, whichever is met first walking outwards."""
+
+    def __init__(self, where: dict[str, Any]) -> None:
+        super().__init__(where)
+        self.where = where
+
+
+CASE_CPU_BUDGET_S = 30  # cases normally need milliseconds to a few seconds of CPU
 CASE_WATCHDOG_S = 45
 _ABORT: dict[str, Any] = {"rec": None, "out": None, "fired": 0}
 
@@ -297,6 +308,28 @@ def _alarm(signum: int, frame: Any) -> None:
     raise CaseTimeout(f"{CASE_WATCHDOG_S} s")
 
 
+def _cpu_alarm(signum: int, frame: Any) -> None:
+    """CPU-time budget of one case used up: attribute it to the code that is executing."""
+    import signal
+
+    signal.setitimer(signal.ITIMER_VIRTUAL, 0)
+    repo_src = str((REPO / "src").resolve())
+    harness = str(VERIF.resolve())
+    where = {"owner": "unknown", "function": None, "file": None, "line": None}
+    f = frame
+    while f is not None:
+        fn = str(Path(f.f_code.co_filename).resolve())
+        if fn.startswith(repo_src):
+            where = {"owner": "observed-code", "function": f.f_code.co_qualname if hasattr(f.f_code, "co_qualname") else f.f_code.co_name,
+                     "file": fn[len(repo_src) + 1:], "line": f.f_lineno}
+            break
+        if fn.startswith(harness):
+            where = {"owner": "harness", "function": f.f_code.co_name, "file": fn, "line": f.f_lineno}
+            break
+        f = f.f_back
+    raise CaseCpuExhausted(where)
+
+
 def run_one(prop: Any, rec: Recorder, case: Any) -> None:
     import signal
 
@@ -306,8 +339,17 @@ def run_one(prop: Any, rec: Recorder, case: Any) -> None:
     _ABORT["rec"], _ABORT["fired"] = rec, 0
     signal.signal(signal.SIGALRM, _alarm)
     signal.alarm(CASE_WATCHDOG_S)
+    signal.signal(signal.SIGVTALRM, _cpu_alarm)
+    signal.setitimer(signal.ITIMER_VIRTUAL, CASE_CPU_BUDGET_S)
     try:
         prop.check(case, rec)
+    except CaseCpuExhausted as e:
+        if e.where["owner"] == "observed-code":
+            # a synchronous loop in the code under observation that does not end: decided on CPU time consumed
+            # inside that code (not on the wall clock), so machine load cannot produce it
+            rec.violation("observed-code-does-not-terminate", {"cpu_seconds_in_one_case": CASE_CPU_BUDGET_S, **e.where})
+        else:
+            rec.harness_problem(f"case used {CASE_CPU_BUDGET_S} s of CPU outside the observed code: {e.where}")
     except Livelock as e:
         # logical-step verdict: the code under observation spins at one virtual instant
         rec.violation("livelock-in-observed-code", {"detail": str(e)})
@@ -327,6 +369,7 @@ def run_one(prop: Any, rec: Recorder, case: Any) -> None:
             rec.harness_problem(f"unattributed {type(e).__name__}: {e} :: {tb[-1500:]}")
     finally:
         signal.alarm(0)
+        signal.setitimer(signal.ITIMER_VIRTUAL, 0)
     rec.end()
 
 
